@@ -371,7 +371,7 @@ type vC01Node struct {
 	addr     hraft.ServerAddress
 	logs     *hraft.InmemStore
 	stable   *hraft.InmemStore
-	snaps    *hraft.InmemSnapshotStore
+	snaps    *vC01SnapStore
 	trans    *hraft.InmemTransport
 	raft     *hraft.Raft
 	cc       *Consensus
@@ -419,7 +419,7 @@ func (r *vC01Rig) addNode() *vC01Node {
 	i := len(r.nodes)
 	id := vC01Peers[i]
 	n := &vC01Node{idx: i, id: id, addr: hraft.ServerAddress(peer.Encode(id)),
-		logs: hraft.NewInmemStore(), stable: hraft.NewInmemStore(), snaps: hraft.NewInmemSnapshotStore(), rec: &vC01Recorder{}}
+		logs: hraft.NewInmemStore(), stable: hraft.NewInmemStore(), snaps: &vC01SnapStore{}, rec: &vC01Recorder{}}
 	s := rpc.NewServer(nil, "vc01")
 	n.client = rpc.NewClientWithServer(nil, "vc01", s)
 	if err := s.RegisterName("PinTracker", &vC01TrackerSvc{rec: n.rec}); err != nil {
@@ -720,6 +720,71 @@ func (r *vC01Rig) recordCalls(n *vC01Node, want int) {
 }
 
 // ---------------------------------------------------------------------------
+// snapshot store: in memory, keeps the newest COMPLETE snapshot. (hashicorp's InmemSnapshotStore makes a snapshot
+// visible at Create, before Persist has written it, so a concurrent InstallSnapshot can ship an empty snapshot
+// labelled with the new index; the file store used in production publishes a snapshot only when it is closed.)
+// ---------------------------------------------------------------------------
+
+type vC01SnapStore struct {
+	mu     sync.Mutex
+	latest *vC01SnapSink
+	n      int
+}
+
+type vC01SnapSink struct {
+	store *vC01SnapStore
+	meta  hraft.SnapshotMeta
+	buf   bytes.Buffer
+	done  bool
+}
+
+func (s *vC01SnapStore) Create(version hraft.SnapshotVersion, index, term uint64, configuration hraft.Configuration,
+	configurationIndex uint64, trans hraft.Transport) (hraft.SnapshotSink, error) {
+	if version != 1 {
+		return nil, fmt.Errorf("unsupported snapshot version %d", version)
+	}
+	s.mu.Lock()
+	defer s.mu.Unlock()
+	s.n++
+	return &vC01SnapSink{store: s, meta: hraft.SnapshotMeta{Version: version, ID: fmt.Sprintf("%d-%d-%d", term, index, s.n),
+		Index: index, Term: term, Configuration: configuration, ConfigurationIndex: configurationIndex}}, nil
+}
+
+func (s *vC01SnapStore) List() ([]*hraft.SnapshotMeta, error) {
+	s.mu.Lock()
+	defer s.mu.Unlock()
+	if s.latest == nil {
+		return []*hraft.SnapshotMeta{}, nil
+	}
+	m := s.latest.meta
+	return []*hraft.SnapshotMeta{&m}, nil
+}
+
+func (s *vC01SnapStore) Open(id string) (*hraft.SnapshotMeta, io.ReadCloser, error) {
+	s.mu.Lock()
+	defer s.mu.Unlock()
+	if s.latest == nil || s.latest.meta.ID != id {
+		return nil, nil, fmt.Errorf("snapshot %s not found", id)
+	}
+	m := s.latest.meta
+	return &m, ioutil.NopCloser(bytes.NewReader(append([]byte{}, s.latest.buf.Bytes()...))), nil
+}
+
+func (k *vC01SnapSink) Write(p []byte) (int, error) { return k.buf.Write(p) }
+func (k *vC01SnapSink) Close() error {
+	k.store.mu.Lock()
+	defer k.store.mu.Unlock()
+	if !k.done {
+		k.done = true
+		k.meta.Size = int64(k.buf.Len())
+		k.store.latest = k
+	}
+	return nil
+}
+func (k *vC01SnapSink) ID() string    { return k.meta.ID }
+func (k *vC01SnapSink) Cancel() error { k.done = true; return nil }
+
+// ---------------------------------------------------------------------------
 // guard FSM
 // ---------------------------------------------------------------------------
 
@@ -814,8 +879,8 @@ func (s *vC01Snap) Persist(sink hraft.SnapshotSink) error {
 	err := s.inner.Persist(hs)
 	if err == nil {
 		idx := uint64(0)
-		if l, _ := s.g.node.snaps.List(); len(l) > 0 {
-			idx = l[0].Index
+		if ks, ok := sink.(*vC01SnapSink); ok {
+			idx = ks.meta.Index
 		}
 		s.g.rig.trace = append(s.g.rig.trace, vC01Ev{Kind: "persist", Node: s.g.node.idx, Idx: idx, Hash: vC01Hash(hs.buf.Bytes())})
 	}
